@@ -426,6 +426,16 @@ class Interp:
         if d in ('numpy.array_equal', 'numpy.array_equiv') and len(args) == 2 and {args[0][0], args[1][0]} == {'vec'} and args[0][1] != args[1][1]:
             # the summary describes the path of a non-identical pair (the self-pair predicate itself is C02.2 / C03.5)
             return K('flag', False)
+        if (d in ('max', 'numpy.maximum', 'numpy.fmax') or (name == 'max' and isinstance(e.func, ast.Name))) and len(args) == 2 and any(a in ZERO for a in args):
+            # max(<entropy combination>, 0): the value is clamped from below
+            other = args[0] if args[1] in ZERO else args[1]
+            if other[0] in ('sum', 'red', 'prod'):
+                self.defect('badclamp', e, 'the entropy combination is clamped at 0 (max(.., 0)): H(Y*|X) - H(Y|X) is negative whenever the displaced copy is less entropic than the feature itself, '
+                            'and such scores are reported as 0 instead')
+                return other
+        if d == 'numpy.clip' and args and args[0][0] in ('sum', 'red', 'prod'):
+            self.defect('badclamp', e, 'the entropy combination is clipped: scores outside the clip range are not the stated value')
+            return args[0]
         if d == 'numpy.zeros':
             return K('zeros', args[0])
         if d == 'numpy.empty':
